@@ -402,6 +402,26 @@ def lattice(kind, nx, ny, a=1.0):
         for i in range(n):
             cells[cid] = [c0, jn(*rim[i]), jn(*rim[(i + 1) % n])]
             cid += 1
+    elif kind == "diamond":
+        # square lattice along the diagonals, on integer multiples of a: every interface has the direction (1, 1) or
+        # (1, -1) EXACTLY (components equal up to sign, bit for bit)
+        for i in range(nx):
+            for j in range(ny):
+                x0, y0 = (i + j) * a, (i - j) * a
+                cells[cid] = [jn(x0, y0), jn(x0 + a, y0 - a), jn(x0 + 2 * a, y0), jn(x0 + a, y0 + a)]
+                cid += 1
+    elif kind == "rosette":
+        # one central cell ringed by n = nx cells (n three-fold junctions, 2n internal interfaces: a square force-balance
+        # system; the central cell has n internal interfaces)
+        n = nx
+        ang = 2 * np.pi * (np.arange(n) + 0.1 * np.sin(1.3 * np.arange(n) + ny)) / n
+        inner = [jn(a * np.cos(t), a * np.sin(t)) for t in ang]
+        outer = [jn(2.2 * a * np.cos(t), 2.2 * a * np.sin(t)) for t in ang]
+        cells[cid] = list(inner)
+        cid += 1
+        for i in range(n):
+            cells[cid] = [inner[i], outer[i], outer[(i + 1) % n], inner[(i + 1) % n]]
+            cid += 1
     else:
         raise ValueError(kind)
     E = {}
@@ -466,3 +486,47 @@ def pendant_subset(rng, at, size):
         return None
     cand.sort()
     return sorted(core | {cand[int(rng.integers(len(cand)))]})
+
+
+def with_lens(rng, at, height=0.15):
+    """a lens-shaped cell (exactly two junctions) inserted on an interface between two cells A and B: A keeps the (now
+    bulged) interface a-b towards the lens, B gets the path a-m-b around it (m: a two-edge vertex).  Returns the new tissue
+    or None.  Both ends of the old interface then belong to the same three cells."""
+    jc = at.jcells()
+    cand = [k for k, cs in at.E.items() if len(cs) == 2 and abs(at.PHI[k]) < 1e-12
+            and all(len(jc[j]) >= 3 for j in k)]
+    if not cand:
+        return None
+    cand.sort(key=sorted)
+    k = cand[int(rng.integers(len(cand)))]
+    p, q = at.ends(k)
+    A, B = at.E[k]
+    cyc = at.cells[A]
+    i = cyc.index(p)
+    a_left = cyc[(i + 1) % len(cyc)] == q          # cells are counter-clockwise: A lies to the left of p -> q
+    t = at.copy()
+    u = (t.J[q] - t.J[p])
+    L = abs(u)
+    u = u / L
+    side_b = (-1j if a_left else 1j) * u           # unit normal pointing into B
+    m = max(t.J) + 1
+    t.J[m] = 0.5 * (t.J[p] + t.J[q]) + side_b * height * L
+    t.PHI[k] = 0.25 if a_left else -0.25          # bulge towards A (PHI > 0: to the left of min -> max)
+    lens = max(t.cells) + 1
+    t.E[k] = [A, lens]
+    for kk in (frozenset((p, m)), frozenset((m, q))):
+        t.E[kk] = [B, lens]
+        t.PHI[kk] = 0.0
+        t.T[kk] = t.T.get(k, 1.0)
+    cb = t.cells[B]
+    j = cb.index(q)                                 # in B's counter-clockwise cycle the interface runs q -> p
+    assert cb[(j + 1) % len(cb)] == p or cb[(j - 1) % len(cb)] == p
+    if cb[(j + 1) % len(cb)] == p:
+        t.cells[B] = cb[:j + 1] + [m] + cb[j + 1:]
+    else:
+        jp = cb.index(p)
+        t.cells[B] = cb[:jp + 1] + [m] + cb[jp + 1:]
+    # lens counter-clockwise: along A's side it runs q -> p (A is on the other side), then p -> m -> q
+    t.cells[lens] = [q, p, m] if a_left else [p, q, m]
+    t.meta["lens"] = [sorted(k), m]
+    return t
